@@ -7,7 +7,7 @@ pub uninterp spec fn aspr<P>(p: &P) -> PathV;         // AsRef<Path> view of a b
 pub fn as_path<'a, P: AsRef<Path>>(p: &'a P) -> (r: &'a Path) ensures pv(r) == aspr(p) { p.as_ref() }
 #[verifier::external_body]
 pub fn vfs_try_exists(p: &Path, Tracked(w): Tracked<&SW>) -> (r: std::io::Result<bool>)
-    ensures r is Ok ==> r->Ok_0 == w.files.contains_key(pv(p)) { unimplemented!() }
+    ensures r is Ok ==> r->Ok_0 == w.files.contains_key(pv(p)), io_ok() ==> r is Ok { unimplemented!() }
 #[verifier::external_body]
 pub fn vfs_read(p: &Path, Tracked(w): Tracked<&SW>) -> (r: std::io::Result<Vec<u8>>)
     ensures r is Ok ==> w.files.contains_key(pv(p)) && r->Ok_0@ == w.files[pv(p)] { unimplemented!() }
